@@ -62,6 +62,9 @@ VARIANTS = {
 }
 
 
+SETUP_VARIANTS = ["dbg"]
+
+
 class HarnessError(Exception):
     pass
 
